@@ -697,3 +697,79 @@ class ReadTimes(_VecReader):
             return [rank_unfold(c, "vrlastwritetime", c.eng.ghost["definedRT"], Lp.i)]
 
         return {"archiveinfo:FilesInfo._read_times#loop0": LoopSpec("for-i-f", inv, target="(i, f) in enumerate(self.files)", unfold_init=init, unfold_step=step)}
+
+
+# ======================================================================================================= FilesInfo._read_name
+def _repl(s):
+    """str.replace('\\\\', '/') - the same uninterpreted symbol the engine uses for this literal replacement"""
+    if not V.is_sym(s):
+        return s.replace("\\", "/")
+    return V.SSeq(V.uf("replace_92_47", V.seq_sort("char"), V.seq_sort("char"))(s.t), "char", "str")
+
+
+@contract
+class ReadName(Contract):
+    """Names property body: the names of ALL members follow each other as zero-terminated UTF-16-LE strings; member k gets
+    the k-th one (with `\\` mapped to `/`, the format's separator) - each name starts exactly where the previous one ended"""
+
+    target = AI + "FilesInfo._read_name"
+    props = ("C06", "C17", "C08")
+    replayable = False
+
+    def setup(self, c):
+        files = c.reclist("files", {"emptystream": {"type": "bool"}, "filename": {"type": "str", "optional": True, "nullable": True}})
+        self_ = c.obj("FilesInfo", "py7zr.archiveinfo", files=files, emptyfiles=c.bool_list("emptyfiles"), antifiles=None)
+        return {"self_": self_, "buffer": c.instream("buffer")}
+
+    def raises(self):
+        return [RaiseSpec("UnicodeDecodeError")]
+
+    def modifies(self, c, self_, buffer):
+        return [(buffer, "pos"), (_files(c, self_), "cols")]
+
+    @staticmethod
+    def _name_k(c, rl, d, cuts, k):
+        from contracts.primitives import ReadUtf16, MAX_UNITS
+        from spec import utf16 as U16
+
+        a, b = nth(cuts, k), nth(cuts, k + 1)
+        term = ReadUtf16._term(d, a, b)
+        return And(
+            a <= b, b <= L(d), b <= a + 2 * MAX_UNITS,
+            rl.defined("filename", k),
+            Implies(term, eq(rl.val("filename", k), _repl(U16.decode(slice_(d, a, b - 2))))),
+            Implies(Not(term), eq(rl.val("filename", k), _repl(U16.decode(slice_(d, a, b))))),
+        )
+
+    def ensures(self, c, old, result, self_, buffer):
+        rl = c.rl(_files(c, self_))
+        n = rl.n
+        d, p = old.data(buffer), old.pos(buffer)
+        cuts = c.ghost_seq("cutsNM", default=[p])
+        return [
+            ("one-name-per-member", And(L(cuts) == n + 1, nth(cuts, 0) == p, c.pos(buffer) == nth(cuts, n))),
+            ("member-k-gets-the-kth-name", ForAll(lambda k: self._name_k(c, rl, d, cuts, k), guard=lambda k: And(k >= 0, k < n), over=cuts, trigger=False)),
+            ("frame-data", eq(c.data(buffer), d)),
+        ]
+
+    def loops(self):
+        def inv(c, Lp):
+            b = c.bound
+            rl = c.rl(_files(c, b["self_"]))
+            d = c.old.data(b["buffer"])
+            cuts = c.eng.ghost["cutsNM"]
+            i = Lp.i
+            return [
+                ("cuts", And(L(cuts) == i + 1, nth(cuts, 0) == c.old.pos(b["buffer"]), nth(cuts, i) == c.pos(b["buffer"]))),
+                ("names-so-far", ForAll(lambda k: self._name_k(c, rl, d, cuts, k), guard=lambda k: And(k >= 0, k < i), over=cuts, trigger=False, cases=lambda k: [k < i - 1, k >= i - 1])),
+                ("frame-data", eq(c.data(b["buffer"]), d)),
+            ]
+
+        def init(c, Lp):
+            c.eng.ghost["cutsNM"] = V.to_seq([c.pos(c.bound["buffer"])], "int", "list")
+            return []
+
+        def gstep(c, Lp):
+            c.eng.ghost["cutsNM"] = snoc(c.eng.ghost["cutsNM"], c.pos(c.bound["buffer"]))
+
+        return {"archiveinfo:FilesInfo._read_name#loop0": LoopSpec("for-f", inv, target="f in self.files", unfold_init=init, ghost_step=gstep, ghosts=["cutsNM"])}
